@@ -341,3 +341,140 @@ fn invoke(env: &Env, spec: &RunSpec, cwd: &Path, tag: &str) -> Observed {
         log_stable: !spec.stdin_pipe && spec.fifos.is_empty(),
     }
 }
+
+// ------------------------------------------------------------------ several invocations at once
+
+/// Two CLI processes working in the same directory, released one tracked call
+/// at a time through the interposer's turnstile. `pick(n)` chooses which of the
+/// n currently blocked processes proceeds; the choices made are returned so
+/// that the interleaving can be replayed exactly.
+pub fn run_duo(env: &Env, specs: &[RunSpec; 2], pick: &mut dyn FnMut(usize) -> usize) -> ([Observed; 2], Vec<u8>) {
+    use std::io::{Read, Write};
+    use std::os::unix::fs::OpenOptionsExt;
+    let base = &env.scratch;
+    let _ = fs::remove_dir_all(base);
+    let cwd = base.join("cwd");
+    fs::create_dir_all(&cwd).unwrap_or_else(|e| simcommon::harness_error(&format!("scratch: {}", e)));
+    for s in specs.iter() {
+        lay_out(&cwd, s);
+    }
+    let before = snapshot(&cwd);
+    let mut children = vec![];
+    let mut reqs = vec![];
+    let mut gos = vec![];
+    for (i, spec) in specs.iter().enumerate() {
+        let req_p = base.join(format!("turn{}-req", i));
+        let go_p = base.join(format!("turn{}-go", i));
+        for p in [&req_p, &go_p] {
+            if !Command::new("mkfifo").arg(p).status().map(|s| s.success()).unwrap_or(false) {
+                simcommon::harness_error("mkfifo failed");
+            }
+        }
+        // both ends open on our side, so nobody blocks in open()
+        let req = fs::OpenOptions::new().read(true).write(true).custom_flags(0o4000).open(&req_p).unwrap();
+        let go = fs::OpenOptions::new().read(true).write(true).open(&go_p).unwrap();
+        let stdin = match &spec.stdin {
+            Some(b) => {
+                let in_p = base.join(format!("stdin-{}", i));
+                fs::write(&in_p, b).unwrap();
+                Stdio::from(fs::File::open(&in_p).unwrap())
+            }
+            None => Stdio::null(),
+        };
+        let mut plan = spec.faults.join(";");
+        if !plan.is_empty() {
+            plan.push(';');
+        }
+        plan.push_str(&format!("rand:{}", spec.rand_seed));
+        let mut cmd = Command::new(&env.cli);
+        cmd.args(spec.argv()).current_dir(&cwd).env_clear();
+        cmd.env("LD_PRELOAD", &env.interposer)
+            .env("VERIF_FAULTS", &plan)
+            .env("VERIF_LOG", base.join(format!("log-{}", i)))
+            .env("VERIF_TURN_REQ", &req_p)
+            .env("VERIF_TURN_GO", &go_p)
+            .env("RUST_BACKTRACE", "0")
+            .stdin(stdin)
+            .stdout(Stdio::from(fs::File::create(base.join(format!("stdout-{}", i))).unwrap()))
+            .stderr(Stdio::from(fs::File::create(base.join(format!("stderr-{}", i))).unwrap()));
+        let child = cmd.spawn().unwrap_or_else(|e| simcommon::harness_error(&format!("cannot spawn: {}", e)));
+        children.push(child);
+        reqs.push(req);
+        gos.push(go);
+    }
+    #[derive(PartialEq, Clone, Copy)]
+    enum St {
+        Running,
+        Blocked,
+        Exited,
+    }
+    let mut st = [St::Running; 2];
+    let mut status: [Option<std::process::ExitStatus>; 2] = [None, None];
+    let mut timed_out = false;
+    let t0 = Instant::now();
+    let wait_event = |i: usize, st: &mut [St; 2], children: &mut Vec<std::process::Child>, reqs: &mut Vec<fs::File>, status: &mut [Option<std::process::ExitStatus>; 2], timed_out: &mut bool| {
+        let mut exiting = false;
+        loop {
+            let mut b = [0u8; 1];
+            match reqs[i].read(&mut b) {
+                Ok(1) if b[0] == b'r' && !exiting => {
+                    st[i] = St::Blocked;
+                    return;
+                }
+                Ok(1) => exiting = true,
+                _ => {}
+            }
+            if let Ok(Some(s)) = children[i].try_wait() {
+                status[i] = Some(s);
+                st[i] = St::Exited;
+                return;
+            }
+            if t0.elapsed() > env.timeout {
+                *timed_out = true;
+                let _ = children[i].kill();
+                status[i] = children[i].wait().ok();
+                st[i] = St::Exited;
+                return;
+            }
+            std::thread::sleep(Duration::from_micros(if exiting { 200 } else { 50 }));
+        }
+    };
+    for i in 0..2 {
+        wait_event(i, &mut st, &mut children, &mut reqs, &mut status, &mut timed_out);
+    }
+    let mut schedule = vec![];
+    loop {
+        let blocked: Vec<usize> = (0..2).filter(|i| st[*i] == St::Blocked).collect();
+        if blocked.is_empty() {
+            break;
+        }
+        let k = blocked[pick(blocked.len()).min(blocked.len() - 1)];
+        schedule.push(k as u8);
+        st[k] = St::Running;
+        let _ = gos[k].write_all(b"g");
+        wait_event(k, &mut st, &mut children, &mut reqs, &mut status, &mut timed_out);
+    }
+    let after = snapshot(&cwd);
+    let mk = |i: usize| -> Observed {
+        let log = fs::read_to_string(base.join(format!("log-{}", i))).unwrap_or_default();
+        let (injected, calls, handshake) = parse_log(&log);
+        if !handshake {
+            simcommon::harness_error("interposer handshake missing from the event log");
+        }
+        let s = status[i];
+        Observed {
+            exit: s.and_then(|s| s.code()),
+            signal: s.and_then(|s| s.signal()),
+            stdout: fs::read(base.join(format!("stdout-{}", i))).unwrap_or_default(),
+            stderr: fs::read(base.join(format!("stderr-{}", i))).unwrap_or_default(),
+            log,
+            before: before.clone(),
+            after: after.clone(),
+            injected,
+            calls,
+            timed_out,
+            log_stable: true,
+        }
+    };
+    ([mk(0), mk(1)], schedule)
+}
